@@ -28,6 +28,7 @@ type Wire struct {
 }
 
 type World struct {
+	NoBeat  bool // do not touch the shared watchdog counter (C20 parallel mode)
 	Seed    uint64
 	P       []*Party
 	Links   [][][]*Wire // [from][to]
@@ -54,7 +55,14 @@ type World struct {
 
 var heartbeat atomic.Int64 // watchdog progress counter (wall-clock watchdog lives outside the bubble)
 
-func (w *World) beat() { heartbeat.Add(1) }
+func (w *World) beat() {
+	if w.NoBeat {
+		// an atomic counter shared by all goroutines is a synchronisation point: it would order
+		// the calls of free-running conversations for the race detector and hide races between them
+		return
+	}
+	heartbeat.Add(1)
+}
 
 func NewWorld(seed uint64, cfgs []PartyCfg) *World {
 	w := &World{Seed: seed, logH: sha256.New(), Faults: map[string]int{}, EvCount: map[string]int{}}
